@@ -19,6 +19,8 @@ from typing import Union
 
 from cogent3 import make_table, make_unaligned_seqs
 from cogent3.app.composable import LOADER, NotCompleted, define_app
+from cogent3.core.alignment import SequenceCollection as _SequenceCollection
+from cogent3.util.table import Table as _Table
 from cogent3.app.typing import (
     IdentifierType,
     SerialisableType,
@@ -48,6 +50,66 @@ class C14Src(C14Rec):
     @property
     def source(self):
         return self["source"]
+
+
+# ------------------------------------------------------------ unwritable values
+# Values of a type every writer accepts (the apps check the CLASS NAME of a value) that no writer can serialise:
+# the methods the writers call (to_dict / to_string / to_rich_dict / to_json) raise.  They pickle by reference
+# (module attribute of the same name), so they cross process boundaries like any other result.
+def _refuse(self, *args, **kwargs):
+    raise ValueError(f"unwritable:{self.c14_key()}")
+
+
+class C14Unw(C14Src):
+    """dict family: write_json and write_db call to_rich_dict when a value has one"""
+
+    c14_unwritable = True
+
+    def c14_key(self):
+        return self["key"]
+
+    to_rich_dict = to_json = _refuse
+
+
+class SequenceCollection(_SequenceCollection):
+    """seqs family (same class name as the library class, on purpose)"""
+
+    c14_unwritable = True
+
+    def c14_key(self):
+        return seqs_key(self)
+
+    to_dict = to_rich_dict = to_json = to_fasta = to_phylip = _refuse
+
+
+class Table(_Table):
+    """tab family (same class name as the library class, on purpose)"""
+
+    c14_unwritable = True
+
+    def c14_key(self):
+        return tab_key(self)
+
+    to_string = to_rich_dict = to_json = to_dict = to_list = _refuse
+
+
+def seqs_unwritable(seqs, idx):
+    return SequenceCollection(seqs.named_seqs, moltype=seqs.moltype, info=seqs.info)
+
+
+def dict_unwritable(rec, idx):
+    return C14Unw(dict_ok(rec, idx))
+
+
+def dict_unjson(rec, idx):
+    """a record json cannot encode (it holds a set) but pickle can: fails in write_json only"""
+    out = dict_ok(rec, idx)
+    out["unw"] = {rec["key"]}
+    return out
+
+
+def tab_unwritable(table, idx):
+    return Table(header=[str(h) for h in table.header], data=_Table.to_list(table))
 
 
 # --------------------------------------------------------------- value families
@@ -83,6 +145,7 @@ def tab_ok(table, idx):
 
 
 _FAMILY = {"seqs": (seqs_key, seqs_ok), "dict": (dict_key, dict_ok), "tab": (tab_key, tab_ok)}
+_UNWRITABLE = {"seqs": seqs_unwritable, "dict": dict_unwritable, "tab": tab_unwritable}
 
 
 def _run_step(app, family, idx, data):
@@ -107,6 +170,10 @@ def _run_step(app, family, idx, data):
         return WRONG_VALUE
     if outcome == "nc":
         return NotCompleted("FAIL", app, f"own:{key}:{idx}", source=data)
+    if outcome == "unwritable":  # only generated for the last step
+        return _UNWRITABLE[family](data, idx)
+    if outcome == "unjson":  # only generated for the last step of the dict family
+        return dict_unjson(data, idx)
     raise RuntimeError(f"harness: unknown outcome {outcome!r}")
 
 
@@ -127,7 +194,7 @@ def _make_step(name, family, idx, in_hint, out_hint):
 
 _HINTS = {
     "seqs": (UnalignedSeqsType, Union[UnalignedSeqsType, SerialisableType]),
-    "dict": (Union[C14Rec, C14Src], Union[C14Rec, C14Src, SerialisableType]),
+    "dict": (Union[C14Rec, C14Src, C14Unw], Union[C14Rec, C14Src, C14Unw, SerialisableType]),
     "tab": (TabularType, Union[TabularType, SerialisableType]),
 }
 
